@@ -37,6 +37,25 @@ theorem C14_bind_error_iff (sig : Signature) (c : CallShape α) :
     (∀ e, bind sig c = .error e → firstErr sig c = some e) :=
   ⟨firstErr_none_iff sig c, bind_error_is_firstErr sig c⟩
 
+omit [DecidableEq α] in
+/-- The order in which keywords are written is irrelevant: a signature without `**kwargs` accepts a
+call under every permutation of its keywords or under none, and binds the same values. -/
+theorem C14_bind_keyword_order (sig : Signature) (hv : hasVarKw sig = false) (pos : List (Val α))
+    (kw kw' : List (String × Val α)) (h : kw.Perm kw') (env : Env α) :
+    bind sig ⟨pos, kw⟩ = .ok env ↔ bind sig ⟨pos, kw'⟩ = .ok env := by
+  rw [bind_ok_iff, bind_ok_iff, accepts_kw_perm sig pos h]
+  constructor
+  · rintro ⟨ha, he⟩
+    have hn : keysNodup kw = true := by
+      rw [← accepts_kw_perm sig pos h] at ha
+      exact (accepts_parts ha).2.1
+    exact ⟨ha, by rw [he, envOf_kw_perm sig hv pos h hn]⟩
+  · rintro ⟨ha, he⟩
+    have hn : keysNodup kw = true := by
+      rw [← accepts_kw_perm sig pos h] at ha
+      exact (accepts_parts ha).2.1
+    exact ⟨ha, by rw [he, envOf_kw_perm sig hv pos h hn]⟩
+
 example : bind [⟨"a", .posOnly, none⟩, ⟨"b", .posOrKw, some "1"⟩, ⟨"r", .varPos, none⟩, ⟨"k", .kwOnly, none⟩]
     (⟨[.arg 1, .arg 2, .arg 3], [("k", .arg 4)]⟩ : CallShape Nat)
     = .ok [("a", .val (.arg 1)), ("b", .val (.arg 2)), ("r", .star [.arg 3]), ("k", .val (.arg 4))] := rfl
@@ -266,6 +285,39 @@ theorem C14_frames_partial (name : String) (id : Nat) (b : String) (inn : Bool)
   rcases hb with h | h
   · exact .inl h
   · exact .inr (.inl h)
+
+/-- Finer hypothesis (what the class predicate `bodyHidesName` negates): at ANY nesting, if the frame
+found shows every user variable the call needs exactly as the user function's frame does — the
+generated body references it, so it is among the body's free variables — then name lookups through
+the frame found give the user frame's objects. -/
+theorem C14_frames_visible_partial (name : String) (id : Nat) (needed : List String) (stack : List Frame)
+    (h : bodyHidesName name id needed stack = false)
+    (i j : Nat) (hi : findOriginatingFrame name id true stack = some i)
+    (hj : findOriginatingFrame name id false stack = some j)
+    (found user : Frame) (ha : stack[i]? = some found) (hb : stack[j]? = some user) :
+    ∀ n ∈ needed, found.locals.lookup n = user.locals.lookup n := by
+  intro n hn
+  simp only [bodyHidesName, hi, hj, ha, hb, Bool.not_eq_false', lookupAgree, List.all_eq_true, beq_iff_eq] at h
+  exact h n hn
+
+/-- At nesting depth 0 the class predicate is false whatever the call needs. -/
+theorem C14_frames_visible_depth0 (name : String) (id : Nat) (needed : List String)
+    (lib : List Frame) (user : Frame) (outer : List Frame)
+    (hlib : ∀ f ∈ lib, f.holds name id = false) (hu : user.holds name id = true)
+    (hout : ∀ f ∈ outer, f.holds name id = false) :
+    bodyHidesName name id needed (lib ++ user :: outer) = false := by
+  have h1 : findOriginatingFrame name id true (lib ++ user :: outer) = some lib.length := by
+    simpa [findOriginatingFrame] using findLoop_innermost name id user outer hu lib 0 none hlib
+  have h2 : findOriginatingFrame name id false (lib ++ user :: outer) = some lib.length := by
+    simpa [findOriginatingFrame] using findLoop_outermost name id user outer hu hout lib 0 none
+  simp [bodyHidesName, h1, h2, lookupAgree]
+
+example : bodyHidesName "fscope" 1 ["zz"]
+    [⟨"lib", [], 9, []⟩, ⟨"if_body", [("fscope", 1), ("r", 5)], 7, []⟩,
+     ⟨"ag__ev", [("c", 2), ("fscope", 1), ("zz", 4)], 7, ["c"]⟩] = true := by decide
+example : bodyHidesName "fscope" 1 ["r"]
+    [⟨"lib", [], 9, []⟩, ⟨"if_body", [("fscope", 1), ("r", 5)], 7, []⟩,
+     ⟨"ag__ev", [("c", 2), ("fscope", 1), ("zz", 4), ("r", 5)], 7, ["c"]⟩] = false := by decide
 
 /-- Counterexample to the full statement: inside `if_body` the frame found is `if_body`'s, and the
 user's local `zz`, which `if_body` does not reference, is not among its `f_locals`
